@@ -373,6 +373,23 @@ pub fn c16_configs(thorough: bool) -> Vec<EpCfg> {
             }
         }
     }
+    // three stored messages and the application's message-expiry hook (erase_stored_publish): the export keeps
+    // the acceptance order whichever entry is erased
+    for ver in [Ver::V4, Ver::V5] {
+        let mut c = EpCfg::new(&cfg_name("c16", RoleK::Client, Some(ver), "erase window=3"), RoleK::Client, Some(ver));
+        c.auto_pub = true;
+        c.window = 3;
+        c.alph = session_alph(ver == Ver::V5, 3);
+        c.alph.pub_q = vec![1];
+        c.alph.erase = true;
+        c.alph.peer_acks = vec![AckKind::Puback];
+        c.connects = vec![ConnProf::basic(false)];
+        c.connacks = vec![AckProf::basic(true)];
+        // the store-content rules of the reference model (store = accepted-order list) are judged while the
+        // crash points are collected: the differential phase compares two objects that would share a permuted order
+        c.groups = vec!["c06"];
+        v.push(c);
+    }
     v
 }
 
@@ -510,6 +527,16 @@ pub fn c16(rep: &mut Report) {
                         let mut bb = b.clone();
                         if bb.register(id).is_ok() {
                             direct.push(format!("restored id {id} can be registered again"));
+                        }
+                    }
+                    // the export lists the incomplete messages in the order they were accepted (the reference
+                    // model's list): original and restored object agree with each other by construction, so a
+                    // permuted export would otherwise go unnoticed
+                    {
+                        let exported: Vec<u32> = x_store.iter().map(|p| p.packet_id() as u32).collect();
+                        let accepted: Vec<u32> = w.m.store.iter().map(|e| e.id).collect();
+                        if exported != accepted {
+                            direct.push(format!("export order differs: get_stored_packets() lists ids {exported:?}, they were accepted in the order {accepted:?}"));
                         }
                     }
                     let mut ta: Trace = vec![];
